@@ -35,14 +35,14 @@ type relSpec struct {
 }
 
 type scen struct {
-	r        *Run
-	s        *Sched
-	st       *Stack
-	cfg      StackCfg
-	clients  []*client
-	preHeld  []core.Listener
-	releases []relSpec
-	outPart  map[string]*atomic.Int64
+	r           *Run
+	s           *Sched
+	st          *Stack
+	cfg         StackCfg
+	clients     []*client
+	preHeld     []core.Listener
+	releases    []relSpec
+	outPart     map[string]*atomic.Int64
 	releasedPre atomic.Int64
 	// counters
 	maxOut int64
